@@ -1,6 +1,6 @@
 CONSTANTS
   NDocs = 120
-  NOperators = 42
+  NOperators = 43
   MaxSite = 14
 INIT Init
 NEXT Next
